@@ -23,6 +23,9 @@ pub struct PropertyConfig {
     pub triggers: &'static [&'static str],
     pub rule: &'static str,
     pub force_journal: Option<bool>,
+    /// crash-point sweep over the final journal in one of N runs
+    pub sweep_one_in: Option<u32>,
+    pub sweep_interior: u32,
 }
 
 pub fn cluster_properties() -> Vec<PropertyConfig> {
@@ -36,6 +39,8 @@ pub fn cluster_properties() -> Vec<PropertyConfig> {
             triggers: &["launches"],
             rule: "one run = seeded swarm configuration + workload + schedule on the cluster engine; non-trivial = at least one task was launched on a worker; distinct = distinct hash of the observable log (events, responses, wire messages, launches)",
             force_journal: None,
+            sweep_one_in: None,
+            sweep_interior: 0,
         },
         PropertyConfig {
             id: "C02",
@@ -45,15 +50,19 @@ pub fn cluster_properties() -> Vec<PropertyConfig> {
             triggers: &["quiescent_runs"],
             rule: "one run = faults then fair suffix; non-trivial = the run reached quiescence with at least one launch (liveness clause evaluated) ; distinct = distinct observable-log hash",
             force_journal: None,
+            sweep_one_in: None,
+            sweep_interior: 0,
         },
         PropertyConfig {
             id: "C03",
-            profiles: &[Dag, Dag, Fail, Cancel],
+            profiles: &[Dag, Dag, Fail, Cancel, Restore],
             quick_runs: 12_000,
             thorough_runs: 300_000,
             triggers: &["dependent_aborted", "submit_on_dead_dependency"],
             rule: "DAG-heavy workloads; non-trivial = a dependent was aborted/canceled because of a dead dependency, or a dependent was submitted on a dead task",
             force_journal: None,
+            sweep_one_in: None,
+            sweep_interior: 0,
         },
         PropertyConfig {
             id: "C05",
@@ -63,24 +72,30 @@ pub fn cluster_properties() -> Vec<PropertyConfig> {
             triggers: &["rounds_with_placements"],
             rule: "non-trivial = at least one scheduling round placed a task (per-round and per-step accounting oracles evaluated)",
             force_journal: None,
+            sweep_one_in: None,
+            sweep_interior: 0,
         },
         PropertyConfig {
             id: "C06",
-            profiles: &[Retract, Retract, Kill, General],
+            profiles: &[Retract, Retract, Kill, General, Restore],
             quick_runs: 12_000,
             thorough_runs: 400_000,
             triggers: &["retract_delivered", "redirect_decided", "restart_after_loss"],
             rule: "retract-heavy (reserve 0-1, several priorities, >=2 workers); non-trivial = a retract was delivered, a redirect decided, or a task restarted after a loss",
             force_journal: None,
+            sweep_one_in: None,
+            sweep_interior: 0,
         },
         PropertyConfig {
             id: "C07",
-            profiles: &[Kill, Kill, General, Retract],
+            profiles: &[Kill, Kill, General, Retract, Restore],
             quick_runs: 12_000,
             thorough_runs: 400_000,
             triggers: &["loss_with_running_task"],
             rule: "kill profile (1-4 losses, every reason, all crash limits); non-trivial = a worker was lost while the server had reported a task running on it",
             force_journal: None,
+            sweep_one_in: None,
+            sweep_interior: 0,
         },
         PropertyConfig {
             id: "C08",
@@ -90,6 +105,8 @@ pub fn cluster_properties() -> Vec<PropertyConfig> {
             triggers: &["cancel_effective"],
             rule: "cancel profile; non-trivial = a cancel request hit at least one non-terminal task",
             force_journal: None,
+            sweep_one_in: None,
+            sweep_interior: 0,
         },
         PropertyConfig {
             id: "C09",
@@ -99,6 +116,41 @@ pub fn cluster_properties() -> Vec<PropertyConfig> {
             triggers: &["launches"],
             rule: "union of all profiles; every call into repository code runs under catch_unwind; non-trivial = at least one launch",
             force_journal: None,
+            sweep_one_in: None,
+            sweep_interior: 0,
+        },
+        PropertyConfig {
+            id: "C10",
+            profiles: &[Restore, Restore, Restore, Prune],
+            quick_runs: 30_000,
+            thorough_runs: 300_000,
+            triggers: &["restarts", "journal_cuts_checked"],
+            rule: "journals produced by the real server in cluster runs; per run 1-3 crashes at seeded steps with a seeded cut in [last sync, bytes at the OS] (record boundary or torn record), plus a restart from the complete journal at the end of every run, plus - in one of 40 runs - a sweep over every record boundary and 2 seeded interior bytes per record of the final journal (fault enumeration along that history); oracle = independent reference fold of the surviving records vs the restarted State/core; non-trivial = at least one restart was compared; distinct = observable-log hash",
+            force_journal: Some(true),
+            sweep_one_in: Some(40),
+            sweep_interior: 2,
+        },
+        PropertyConfig {
+            id: "C11",
+            profiles: &[Restore, Restore, Prune, Kill],
+            quick_runs: 30_000,
+            thorough_runs: 300_000,
+            triggers: &["restarts"],
+            rule: "same runs as C10 (1-3 restarts per run, allocation-queue create/remove records injected through the real EventStreamer); oracle = id counters after the restart vs every id the surviving journal mentions, ids actually issued afterwards vs the same set, server uid unchanged; non-trivial = at least one restart",
+            force_journal: Some(true),
+            sweep_one_in: None,
+            sweep_interior: 0,
+        },
+        PropertyConfig {
+            id: "C12",
+            profiles: &[Prune, Prune, Prune, Restore],
+            quick_runs: 30_000,
+            thorough_runs: 300_000,
+            triggers: &["prunes"],
+            rule: "real PruneJournal request (real handle_prune_journal + real streaming_process prune branch: tmp file, rename, reopen) at seeded steps; metamorphic oracle: restart(journal before the prune) == restart(pruned journal) on unfinished jobs, task outcomes, pending tasks with dependencies / next instance id / crash count, queues; the run continues (append, prune again, crash, final restart); non-trivial = at least one prune executed",
+            force_journal: Some(true),
+            sweep_one_in: None,
+            sweep_interior: 0,
         },
         PropertyConfig {
             id: "C13",
@@ -108,6 +160,8 @@ pub fn cluster_properties() -> Vec<PropertyConfig> {
             triggers: &["submit_ok"],
             rule: "client-heavy profile (open/submit/close/cancel/forget mixes, submit --wait, journal mostly on); non-trivial = at least one accepted submit",
             force_journal: None,
+            sweep_one_in: None,
+            sweep_interior: 0,
         },
         PropertyConfig {
             id: "C14",
@@ -117,6 +171,8 @@ pub fn cluster_properties() -> Vec<PropertyConfig> {
             triggers: &["max_fails_tripped"],
             rule: "fail profile (max_fails 0..2, 20-60% failing tasks, launch failures); non-trivial = the failure limit of some job was exceeded",
             force_journal: None,
+            sweep_one_in: None,
+            sweep_interior: 0,
         },
     ]
 }
@@ -174,6 +230,8 @@ pub fn run_shard(
                 verbose: false,
                 tag: tag.to_string(),
                 force_journal: cfg.force_journal,
+                sweep_one_in: cfg.sweep_one_in,
+                sweep_interior: cfg.sweep_interior,
             },
         );
         out.runs.push(summarize(&r, i, cfg));
@@ -532,13 +590,23 @@ fn report_violation(
             verbose: false,
             tag: "report".into(),
             force_journal: cfg.force_journal,
+            sweep_one_in: cfg.sweep_one_in,
+            sweep_interior: cfg.sweep_interior,
         },
     );
     if r.log_hash != first.log_hash {
         return Err("re-execution of the seed produced a different observable log".into());
     }
     let plan = r.plan.clone().unwrap();
-    let (actions, stats) = crate::shrink::shrink(&plan, first.seed, &r.trace, target, "shrink", 600);
+    let (actions, stats) = crate::shrink::shrink(
+        &plan,
+        first.seed,
+        &r.trace,
+        target,
+        "shrink",
+        600,
+        (cfg.sweep_one_in, cfg.sweep_interior),
+    );
     // final recorded execution of the minimised list
     let rr = crate::run::replay_actions(
         &plan,
@@ -548,6 +616,8 @@ fn report_violation(
             verbose: false,
             tag: "report".into(),
             force_journal: None,
+            sweep_one_in: cfg.sweep_one_in,
+            sweep_interior: cfg.sweep_interior,
         },
         None,
     );
@@ -567,6 +637,8 @@ fn report_violation(
                 verbose: false,
                 tag: "report".into(),
                 force_journal: None,
+                sweep_one_in: cfg.sweep_one_in,
+                sweep_interior: cfg.sweep_interior,
             },
             None,
         );
@@ -595,6 +667,8 @@ fn report_violation(
         message,
         log_hash: format!("{:016x}", rr.log_hash),
         minimised,
+        sweep_one_in: cfg.sweep_one_in,
+        sweep_interior: cfg.sweep_interior,
     };
     let dir = args.verif_dir.join("replays");
     std::fs::create_dir_all(&dir).map_err(|e| e.to_string())?;
@@ -631,6 +705,8 @@ fn sample_traces(args: &CheckArgs, cfg: &PropertyConfig, runs: &[RunSummary]) ->
                 verbose: false,
                 tag: "sample".into(),
                 force_journal: cfg.force_journal,
+                sweep_one_in: cfg.sweep_one_in,
+                sweep_interior: cfg.sweep_interior,
             },
         );
         let plan = rr.plan.as_ref().unwrap();
@@ -674,6 +750,8 @@ pub fn replay_file(path: &Path, verbose: bool) -> i32 {
             verbose,
             tag: "replay".into(),
             force_journal: None,
+            sweep_one_in: None,
+            sweep_interior: 0,
         },
     );
     let hit = r
